@@ -429,7 +429,7 @@ class Src:
 
 
 BLANKS = [" ", " ", " ", "\t", "\xa0", "　", "\x0b", "\x0c", " "]
-ADVERSARIAL = ["$HOME", "${PATH}", "$USER and $_", "~/notes", "~root", "%HOME%", "\ufdd0\ufdd0", "\ufdd0\ufdd1", "\x00\x00", "\ue000\ue001", "\u202bRTL\u202c", "\uff20tag", "\uff03 c", "\uff5c a \uff5c", "Feature\uff1a f", "\uff02\uff02\uff02", "\u201c\u201c\u201c", "caf\u00e9", "cafe\u0301", "\u212a", "\u0130", "\u00df", "\u0660\u0661", '\\"\\"\\"', "\\`\\`\\`", "#12", "{", "}", "{int}", "{0}", "{}", "%s", "%(x)s", "%", "${x}", "\\x41", "\\u00e9", "&lt;", "'", "''", "\"", "x", "a", "word", " ", "Examples", "Background", "Rule", "Scenario Outline", "Feature", "Scenario", "Given x", "When ", "* y", "| a | b |", '"""', "```", "Examples:", "Scenario: s", "Feature: f", "Rule: r",
+ADVERSARIAL = ["{items}", "{text}", "{keyword}", "{location}", "%(text)s", "{0}", "{}", "$HOME", "${PATH}", "$USER and $_", "~/notes", "~root", "%HOME%", "\ufdd0\ufdd0", "\ufdd0\ufdd1", "\x00\x00", "\ue000\ue001", "\u202bRTL\u202c", "\uff20tag", "\uff03 c", "\uff5c a \uff5c", "Feature\uff1a f", "\uff02\uff02\uff02", "\u201c\u201c\u201c", "caf\u00e9", "cafe\u0301", "\u212a", "\u0130", "\u00df", "\u0660\u0661", '\\"\\"\\"', "\\`\\`\\`", "#12", "{", "}", "{int}", "{0}", "{}", "%s", "%(x)s", "%", "${x}", "\\x41", "\\u00e9", "&lt;", "'", "''", "\"", "x", "a", "word", " ", "Examples", "Background", "Rule", "Scenario Outline", "Feature", "Scenario", "Given x", "When ", "* y", "| a | b |", '"""', "```", "Examples:", "Scenario: s", "Feature: f", "Rule: r",
                "Background:", "@tag", "# c", "#language: fr", "<a>", "<b>", "\\", "\\n", "\\|", "a.b", "a(b", "$1", "\\1", "[", "*", "+", "?",
                "\x85", " ", " ", "\x1c", "\x1d", "\x1e", "é", "\U0001F600", "日本", ":", "  ", "\t", "b",
                "\ufeff", "\u200b", "\u2060", "\u180e", "\ufeffx", "long tail of ordinary prose without any special character in it at all"]
@@ -533,6 +533,15 @@ def g_titled(s, kws, ctx, dialect, has_tags=True, p_desc=0.4):
             v = s.choice([k.lower(), k.upper(), k.swapcase(), k.title(), k[:1].lower() + k[1:]])
             if v != k:
                 t["desc"].insert(s.int(len(t["desc"]) + 1), {"k": "text", "raw": g_indent(s) + v + ":" + s.choice(["", " x", " " + k])})
+        if s.int(4) == 0 and ctx in ("scenario", "background"):
+            # a line that starts with a step keyword written slightly differently: another blank character behind it, the other apostrophe,
+            # only its first word - free text, keywords are matched exactly
+            sk = s.choice([k for k, _ in step_keywords(dialect)])
+            first = sk.split(" ")[0]
+            variants = [v for v in (sk.rstrip(" ") + "\u00a0x", sk.rstrip(" ") + "\u202fx", sk.replace("'", "\u2019") + "x", sk.replace("\u2019", "'") + "x", first + " zzz", sk.rstrip(" ") + "\tx")
+                        if not any(v.startswith(k2) for k2, _ in step_keywords(dialect))]
+            if variants:
+                t["desc"].insert(s.int(len(t["desc"]) + 1), {"k": "text", "raw": g_indent(s) + s.choice(variants)})
         for m in t["desc"]:
             # sound by construction: a description line must not be anything the grammar expects at this point
             if m["k"] == "text" and trim(m["raw"]) and any(k in EXPECTED[ctx] for k in cf_kinds(dialect, m["raw"] + "\n")):
@@ -610,7 +619,10 @@ def g_docarg(s):
 def g_step(s, dialect, p_arg=0.35):
     kws = [k for k, _ in step_keywords(dialect)]
     st_ = {"pre": g_miscs(s), "indent": g_indent(s), "kw": s.choice(kws), "text": g_text(s), "trail": g_trail(s), "arg": None}
-    if s.int(6) == 0:
+    if s.int(10) == 0:
+        # a text made of list / rule markers only (a '* ' step reading '* * *', '- - -')
+        st_["text"] = s.choice(["* *", "* * *", "- -", "- - -", "***", "---", "___", "_ _ _", "+ +", "= ="])
+    elif s.int(6) == 0:
         # the text mentions the step's own keyword again (once, twice, glued)
         st_["text"] = st_["text"] + st_["kw"] + s.choice(["x ", "", st_["kw"]]) + st_["kw"].strip() + g_text(s)
     if s.prob(p_arg):
